@@ -20,7 +20,7 @@ func (e Expr) MarshalJSON() ([]byte, error) {
 		return json.Marshal(map[string]any{"op": e.Op, "prim": e.Prim, "preds": nn(e.Preds), "steps": nn(e.Steps)})
 	case "num":
 		return json.Marshal(map[string]any{"op": e.Op, "v": e.V})
-	case "lit":
+	case "lit", "numtext":
 		return json.Marshal(map[string]any{"op": e.Op, "s": nn(e.S)})
 	case "var":
 		return json.Marshal(map[string]any{"op": e.Op, "pre": e.Pre, "lo": nn(e.Lo)})
